@@ -180,7 +180,27 @@ func unpackRes(f field.Field, data []byte) string {
 	if err != nil {
 		return "err"
 	}
-	return fmt.Sprintf("ok %s %d", TrackTree(f).String(), read)
+	res := fmt.Sprintf("ok %s %d", TrackTree(f).String(), read)
+	// the same components read out through Unmarshal into a new track value (and written back
+	// through Marshal into another) - the copying accessors must agree with the fields
+	var out, back field.Field
+	switch f.(type) {
+	case *field.Track1:
+		out, back = &field.Track1{}, &field.Track1{}
+	case *field.Track2:
+		out, back = &field.Track2{}, &field.Track2{}
+	case *field.Track3:
+		out, back = &field.Track3{}, &field.Track3{}
+	}
+	if out != nil {
+		if err := f.Unmarshal(out); err != nil || TrackTree(out).String() != TrackTree(f).String() {
+			return res + " UNMARSHAL-DIFFERS " + TrackTree(out).String()
+		}
+		if err := back.Marshal(out); err != nil || TrackTree(back).String() != TrackTree(f).String() {
+			return res + " MARSHAL-DIFFERS " + TrackTree(back).String()
+		}
+	}
+	return res
 }
 
 // TrackRoundTrip evaluates the C01 statement for one track value on the implementation:
